@@ -538,6 +538,7 @@ where
         );
 
         let mut log: Vec<(usize, u64)> = vec![];
+        let table_backup = self.table.clone();
         let n_elements_backup = self.n_elements;
         let mut i1: usize = 0;
         for (counter, f) in other.table.iter().enumerate() {
@@ -550,7 +551,7 @@ where
             if f != 0 {
                 let i2 = i1 ^ other.hash(&f);
                 if let Err(err) = self.insert_internal(f, i1, i2, &mut log) {
-                    self.restore_state(&log);
+                    self.table = table_backup;
                     self.n_elements = n_elements_backup;
                     return Err(err);
                 }
